@@ -68,8 +68,9 @@ fn op_real(toks: &[Tok], prop: &str) -> Outcome {
             let v = int.unwrap();
             let vf = if v >= 0 { v as u64 as f64 } else { v as i64 as f64 };
             let p = vf * (fp.quantization as f64);
-            if p.is_finite() && p >= 0.0 && p < 3.0e19 {
-                let t = p.trunc() as u128 as i128;
+            // "truncated toward zero is non-negative": every product above -1 truncates to 0 or more
+            if p.is_finite() && p > -1.0 && p < 3.0e19 {
+                let t = if p < 0.0 { 0 } else { p.trunc() as u128 as i128 };
                 let sum = t + off;
                 if sum >= 0 && sum < (1i128 << 63) {
                     if res != Some(Some(sum as u64)) {
